@@ -20,6 +20,9 @@ Workload diversity (added after the seeded-change campaign; generators shared wi
 earlier objects of the process, 3-D variant B has N == dim, positional constructor arguments + defaults), then the FIRST
 communicator of the process again.
 
+Self-test of the added dimensions: the interpolation-closure cache keyed without dx (see C06) -> VIOLATION interp!=W u dx^d,
+interp(vector)!=W u dx^d, bilinear-identity(scalar|vector), every witness on the 'sibling' object.
+
 Tolerances are a-priori rounding models (``e_m = eps_t + eps64*(|X_m|/dx + 2)`` as in C06, S = cells with
 |r_a| < 2.5 in every direction, n_c = markers touching cell c times number of spreads):
   interpolation   4*4^d*eps_t*sum|W||u|dx^d + 32*e_m*d*2^-d*sum_S|u|            (dot product + weight noise)
